@@ -74,6 +74,21 @@ def opsCore (op : String) (a : List String) : Option String :=
       ++ " " ++ toString (H3.Gen.Bits.getNumCells rb o).toNat ++ " " ++ showH (H3.Gen.Bits.getNumCells_out_out rb o)
       ++ " " ++ toString (H3.Gen.Bits.maxGridDiskSize kb o).toNat ++ " " ++ showH (H3.Gen.Bits.maxGridDiskSize_out_out kb o)
       ++ " " ++ b (H3.Gen.Bits.getNumCells_defined rb o) ++ b (H3.Gen.Bits.maxGridDiskSize_defined kb o))
+  | "genfn5", [h, r, o, uo, uv] => do
+    -- cellToChildPos as translated by c2lean: return code and the value left in *out (partial sums on an error
+    -- inside the loops included); uo, uv are the indeterminate values of its uninitialised locals
+    let h ← parseH h
+    let r ← parseInt r
+    let o ← parseH o
+    let uo ← parseH uo
+    let uv ← parseH uv
+    let rb := BitVec.ofInt 32 r
+    pure ("ok " ++ toString (H3.Gen.Bits.cellToChildPos h rb o uo uv).toNat ++ " " ++ showH (H3.Gen.Bits.cellToChildPos_out_out h rb o uo uv))
+  | "genfn6", [h] => do
+    let h ← parseH h
+    pure ("ok " ++ toString (H3.Gen.Bits.getResolution h).toNat ++ " " ++ toString (H3.Gen.Bits.getBaseCellNumber h).toNat
+      ++ " " ++ toString (H3.Gen.Bits.isResClassIII h).toNat ++ " " ++ toString (H3.Gen.Bits.pentagonCount).toNat
+      ++ " " ++ toString (H3.Gen.Bits.res0CellCount).toNat)
   | "mac", [h, r, d, v] => do
     let h ← parseH h
     let r ← r.toNat?
